@@ -29,7 +29,7 @@ ASSUMPTIONS = [
 ]
 
 EPS32 = float(np.finfo(np.float32).eps)
-FAMILIES = ["const", "b1", "b2", "b4", "b8", "outlier", "offset", "grid", "step", "ramp", "tiny", "huge", "bandpass"]
+FAMILIES = ["const", "b1", "b2", "b4", "b8", "outlier", "offset", "grid", "step", "ramp", "tiny", "huge", "bandpass", "mixed"]
 
 
 def prime():
@@ -64,6 +64,15 @@ def make(kind, n, nch, seed):
         return x.astype(np.float32)
     if kind == "ramp":
         x = rng.integers(-16, 17, (n, nch)) / 8 + np.round(np.linspace(0, float(rng.choice([8, 64, -200])), n) * 8)[:, None] / 8
+        return x.astype(np.float32)
+    if kind == "mixed":
+        # a quiet channel next to one with strong interference: variances differ by more than 1e7 (sigma by > 3000)
+        x = np.empty((n, nch), dtype=np.float64)
+        for c in range(nch):
+            if c % 2 == 0:
+                x[:, c] = rng.integers(0, 2, n) + rng.integers(0, 2, n) * (c == 0)  # 0/1 (or 0/1/2): skewed, tiny spread
+            else:
+                x[:, c] = rng.integers(-32768, 32768, n) / 1.0 * 2
         return x.astype(np.float32)
     if kind == "bandpass":
         # channels sit at different levels and have different spreads (a bandpass shape): the ranges of two channels need
@@ -192,7 +201,7 @@ def check(case, ctx):
 
 def enum_compositions(tier):
     nmax = 10 if tier == "quick" else 13
-    fams = ["b1", "b8", "offset", "grid", "outlier", "const", "step", "tiny", "bandpass"] if tier == "quick" else FAMILIES
+    fams = ["b1", "b8", "offset", "grid", "outlier", "const", "step", "tiny", "bandpass", "mixed"] if tier == "quick" else FAMILIES
     for fam in fams:
         for mode in ("basic", "full"):
             for n in range(2, nmax + 1):
